@@ -141,6 +141,58 @@ def judge(res, config, x1, pr, vr, Rr, tol_scale, what, detail, case, steps=1):
     return not bad
 
 
+def _mp_R(config, att):
+    mp = mpmath.mp
+    if config == "strapdown_quat":
+        w_, x_, y_, z_ = att
+        n2 = w_ * w_ + x_ * x_ + y_ * y_ + z_ * z_
+        return mp.matrix([[1 - 2 * (y_ * y_ + z_ * z_) / n2, 2 * (x_ * y_ - w_ * z_) / n2, 2 * (x_ * z_ + w_ * y_) / n2],
+                          [2 * (x_ * y_ + w_ * z_) / n2, 1 - 2 * (x_ * x_ + z_ * z_) / n2, 2 * (y_ * z_ - w_ * x_) / n2],
+                          [2 * (x_ * z_ - w_ * y_) / n2, 2 * (y_ * z_ + w_ * x_) / n2, 1 - 2 * (x_ * x_ + y_ * y_) / n2]])
+    r = mp.matrix(list(att))
+    n2 = (r.T * r)[0]
+    K = mp.matrix([[0, -r[2], r[1]], [r[2], 0, -r[0]], [-r[1], r[0], 0]])
+    return mp.eye(3) + (8 * K * K + 4 * (1 - n2) * K) / (1 + n2) ** 2
+
+
+def mp_truncation_error(config, prog, x0, a, w, g, dt):
+    """the compiled step evaluated in 60-digit arithmetic (rounding out of the picture) against the closed-form flow in the same
+    arithmetic: what remains is the step's own truncation / formula error.  Returns the largest deviation of p, v, R."""
+    mp = mpmath.mp
+    outs, _ = sxvm.run(prog, [list(x0), list(a), list(w), [g], [dt]], sxvm.MPF)
+    x1 = outs[0]
+    if any(v is sxvm.POISON for v in x1):
+        return float("inf")
+    f_ = lambda v: mp.mpf(float(v))
+    p0, v0 = mp.matrix([f_(c) for c in x0[0:3]]), mp.matrix([f_(c) for c in x0[3:6]])
+    R0 = _mp_R(config, [f_(c) for c in x0[6:]])
+    av, wv = mp.matrix([f_(c) for c in a]), mp.matrix([f_(c) for c in w])
+    t = f_(dt)
+    th = mp.sqrt((wv.T * wv)[0])
+    K = mp.matrix([[0, -wv[2], wv[1]], [wv[2], 0, -wv[0]], [-wv[1], wv[0], 0]])
+    if th * t < mp.mpf(10) ** -25:
+        E, I1, I2 = mp.eye(3) + K * t, mp.eye(3) * t + K * t * t / 2, mp.eye(3) * t * t / 2 + K * t ** 3 / 6
+    else:
+        s_, c_ = mp.sin(th * t), mp.cos(th * t)
+        E = mp.eye(3) + s_ / th * K + (1 - c_) / th ** 2 * K * K
+        I1 = mp.eye(3) * t + (1 - c_) / th ** 2 * K + (t - s_ / th) / th ** 2 * K * K
+        I2 = mp.eye(3) * t * t / 2 + (t - s_ / th) / th ** 2 * K + (t * t / 2 - (1 - c_) / th ** 2) / th ** 2 * K * K
+    e3 = mp.matrix([0, 0, 1])
+    pr = p0 + v0 * t + R0 * I2 * av - f_(g) * e3 * t * t / 2
+    vr = v0 + R0 * I1 * av - f_(g) * e3 * t
+    Rr = R0 * E
+    R1 = _mp_R(config, list(x1[6:]))
+    err = max([abs(x1[i] - pr[i]) for i in range(3)] + [abs(x1[3 + i] - vr[i]) for i in range(3)]) / (1 + max(abs(c) for c in list(pr) + list(vr)))
+    errR = max(abs(R1[i, j] - Rr[i, j]) for i in range(3) for j in range(3))
+    errN = 0
+    if config == "strapdown_quat":
+        # "the attitude quaternion keeps unit norm": the norm leaves the step as it entered it
+        n_in = mp.sqrt(sum(f_(c) ** 2 for c in x0[6:]))
+        n_out = mp.sqrt(sum(c * c for c in x1[6:]))
+        errN = abs(n_out - n_in)
+    return float(max(err, errR, errN))
+
+
 def explore_onestep(case):
     config, tier, seed, dt = case["config"], case["tier"], case["seed"], case["dt"]
     res = core.Result()
@@ -207,6 +259,20 @@ def explore_onestep(case):
                     if dt == 0 and maxabs(x1 - x0) > 1e-14 * (1 + maxabs(x0)):
                         res.fail(site=config, clause="dt_zero_is_identity", cls="dt=0", detail=dict(x0=x0, a=a, w=w, g=g, x1=x1),
                                  sub="onestep", case=case)
+    # "no discretisation error": with rounding taken out (60 digits) the step is the closed-form flow to 1e-13 - a series shortened by a
+    # term or two is invisible to the double comparison above in one step and grows with the number of steps
+    if dt > 0:
+        wset = {w.tobytes(): w for w in ws}
+        worst = 0.0
+        for w in wset.values():
+            res.count("evaluations")
+            res.count("exact_arithmetic_steps")
+            e = mp_truncation_error(config, prog, x0s[1], A_MENU[2], w, 9.8, dt)
+            worst = max(worst, e if math.isfinite(e) else 0.0)
+            if not e <= 1e-13:
+                res.fail(site=config, clause="no_discretisation_error_in_exact_arithmetic", cls="theta<0.0632" if (np.linalg.norm(w) * dt) ** 2 / 4 < 1e-3 else "closed_form",
+                         detail=dict(x0=x0s[1], a=A_MENU[2], w=w, g=9.8, dt=dt, theta=float(np.linalg.norm(w) * dt), deviation=e), sub="onestep", case=case)
+        res.counters["worst_exact_arithmetic_deviation_1e-30"] = max(res.counters["worst_exact_arithmetic_deviation_1e-30"], int(min(worst, 1.0) * 1e30))
     # the function is also called by argument name (dict / keyword calls, name-based binding of generated code)
     if config == "strapdown_quat":
         names = [f.name_in(i) for i in range(f.n_in())]
